@@ -29,6 +29,7 @@ def dispatch (line : String) : String :=
   | some (.atom "c16" :: args) => Driver.C16.handle args
   | some (.atom "c17slice" :: args) => Driver.C17.handleSlice args
   | some (.atom "c17report" :: args) => Driver.C17.handleReport args
+  | some (.atom "c17ctx" :: args) => Driver.C17.handleCtx args
   | some (.atom "struct" :: args) => Driver.Struct.handle args
   | some (.atom "recgraph" :: args) => Driver.Struct.handleRec args
   | some (.atom "c08chase" :: args) => Driver.C08.handle args
